@@ -49,8 +49,13 @@ def _sample_check(predict, p, seeds, what):
     counts = np.zeros(m)
     total = 0
     first = None
+    from vf import gen
+
     for s in seeds:
+        g0 = gen.global_state()
         out = np.asarray(predict(DRAW_TILES, s)).reshape(-1)
+        if gen.global_state() != g0:
+            raise PropertyViolation(f"{what}: predict(random_state={s}) changed process-global state (numpy global RNG / error state / warnings filters)")
         if out.shape[0] != m * DRAW_TILES:
             raise PropertyViolation(f"{what}: predict returned {out.shape[0]} labels for {m * DRAW_TILES} rows")
         if not np.isin(out, [0, 1]).all():
